@@ -10,7 +10,7 @@ def pick_variant(rng, kind, inp):
 
 def sequences(rng, name, n):
     kind, univ, needs_ref, _ = D.DETECTORS[name]
-    al = D.alphabet(kind)
+    al = D.alphabet(kind, name)
     for seq in itertools.product(al, repeat=n):
         calls = []
         if needs_ref:
@@ -28,6 +28,8 @@ def injected_histories(rng, name, length):
     kind, univ, needs_ref, _ = D.DETECTORS[name]
     w = 1 if univ else rng.choice([2, 3])
     names = ",".join(D.NAMES[w])
+    if name.endswith("(y)"):
+        return []
     rows = 1 if kind == "stream" else None
 
     def good():
@@ -78,7 +80,7 @@ def run(ctx):
     ctx.validate("Validation", t2, "valid histories with one malformed call injected at every position", sabotage=D.sabotage,
                  replay=rep(t2), dev_module="Validation", nontrivial=nt)
     ctx.assumptions += ["the digest compared with the twin contains drift_state, counters, retraining_recs and the numeric statistics each class exposes",
-                        "y inputs are not part of this check's alphabet (data-drift and change detectors ignore them)"]
+                        "label inputs (y with several observations) are exercised through DDM and STEPD driven by their label arguments only"]
     return ctx.finish()
 
 
